@@ -170,8 +170,12 @@ def _task(E: int, M: int, rounding: str, srbits: int, claim: str, timeout_s: flo
         else:
             confirm({"x": 0x3FC00000 if dtype == "float32" else 0x3FF8000000000000 if dtype == "float64" else 0x3FC0 if dtype == "bfloat16" else 0x3E00}, enc.error)
         return recs
-    if enc.error is not None:
-        return recs  # reported by the no_error obligation of the same configuration
+    if enc.error is not None:  # every claim of this configuration fails the same way: report it once (same key)
+        claim = "no_error"
+        name = f"{tag}/{dtype}{list(shape)}/{claim}"
+        key = (f"C13/{name}" if rounding == "nearest" else f"C14/{name}")
+        confirm({"x": 0x3FC00000 if dtype == "float32" else 0x3FF8000000000000 if dtype == "float64" else 0x3FC0 if dtype == "bfloat16" else 0x3E00}, enc.error)
+        return recs
     if claim == "shape_dtype":
         ok = tuple(enc.out.shape) == tuple(shape) and enc.out.dtype == DT[dtype]
         if ok:
